@@ -27,6 +27,10 @@ func init() {
 				Witnesses: []string{"terminate-followed-by-more", "two-callbacks"}},
 			{Pkg: "buffer", Entry: "VerifH18k", What: "the bytes of a later message never land in the window an earlier message was parsed from (K successive windows, symbolic sizes on both sides of the 4 KiB granule)",
 				Quick: map[string]int{"K": 5, "SMAX": 9000}, Witnesses: []string{"large-window", "same-array-reused"}},
+			{Pkg: "wire", Entry: "VerifH10g", What: "a header declaring any length above the limit up to 2^32-1 (top bit set included), followed by fewer bytes than declared (a well-formed Query) and the end of the stream: those bytes are body, never a message; no callback",
+				Quick: map[string]int{}, Witnesses: []string{"declared-length-with-the-top-bit-set", "declared-length-below-2^31"}},
+			{Pkg: "wire", Entry: "VerifH10i", What: "an oversized message (body made of well-formed messages, one of them a Query) arriving while a handler reads COPY data: skipped in full, nothing of it taken for a message, the COPY aborted with exactly one ErrorResponse and one ReadyForQuery, the query after it served",
+				Quick: map[string]int{}, Witnesses: []string{"oversized-copydata", "query-inside-the-oversized-body"}},
 			{Pkg: "wire", Entry: "VerifH10c", What: "session: the message after a skipped one is interpreted from its own first byte",
 				Quick: map[string]int{"LVAR": 3, "OVER": 3, "DISCARD": 1}, Witnesses: []string{"oversized-in-the-middle", "oversized-while-discarding"}},
 		},
